@@ -100,8 +100,95 @@ def run(chk):
                           % (rej["reject_at"], evs[-1]["op"], bytes(evs[-1]["buf"]), json.dumps(evs[-1]["console"])[:300], evs[-1]["ret"]),
                           {"kind": "console-trace", "events": evs, "flags": flags})
     chk.part("B_traces", shards=shards, calls=sum(j[1]["events"] for j in jobs))
+    std_lock_part(chk, vw, flags)
     chk.sample({"call": json.loads(open(jobs[0][0]).readline())})
     chk.exhaustive = False
+
+
+STD_LOCK_CASES = [
+    (b"\x1b[31mred ", b"still red\x1b[0m plain"),            # a colour in force at lock()
+    (b"\x1b[44;3", b"2mgreen on blue\x1b[0m"),               # CSI cut at lock()
+    (b"a\xc3", b"\xa9b"),                                    # character cut at lock()
+    (b"\x1b]0;ti", b"tle\x07Z"),                             # OSC cut at lock()
+    (b"x\x1b[1;9", b"2;103my\x1b[39mz"),                     # bright codes, bold ignored by the console
+    (b"\x1b[38;5;1", b"2mq\x1b[48;2;1;2;3mr"),               # indexed < 16 maps to the palette, RGB falls back to default
+    (b"plain", b" text"),
+    (b"\x1b[35m", b"\x1b[0;36mc"),
+]
+FRAME = None
+
+
+def parse_frames(part):
+    """anstyle-wincon's ANSI fallback writes [fg code][bg code] data [reset] per write_colored call; back to console calls"""
+    import re
+    calls = []
+    pos = 0
+    rx = re.compile(rb"(?:\x1b\[(3[0-7]|9[0-7])m)?(?:\x1b\[(4[0-7]|10[0-7])m)?([^\x1b]*)(?:\x1b\[0m)?")
+    while pos < len(part):
+        m = rx.match(part, pos)
+        if not m or m.end() == pos:
+            return None
+        fg = 16 if m.group(1) is None else (int(m.group(1)) - 30 if int(m.group(1)) < 90 else int(m.group(1)) - 90 + 8)
+        bg = 16 if m.group(2) is None else (int(m.group(2)) - 40 if int(m.group(2)) < 100 else int(m.group(2)) - 100 + 8)
+        data = list(m.group(3))
+        if data:
+            calls.append([fg, bg, data, "ok", len(data)])
+        pos = m.end()
+    return calls
+
+
+def std_lock_part(chk, vw, flags):
+    """WinconStream over the REAL stdout / stderr (a pipe: anstyle-wincon's ANSI fallback), a chunk, lock(), a chunk: the locked
+    stream must continue with the carried state; the framed output is read back as console calls and judged by Trace_WinconStream"""
+    wd = vlib.workdir("c18-std")
+    cp = os.path.join(wd, "cases.ndjson")
+    vlib.write_lines(cp, [{"chunks": [list(a), list(b)]} for a, b in STD_LOCK_CASES])
+    n = 0
+    for stream in ("stdout", "stderr"):
+        r = subprocess.run([vw, "std-lock", cp, stream], stdout=subprocess.PIPE, stderr=subprocess.PIPE, timeout=300)
+        if r.returncode != 0:
+            raise vlib.ToolError("vh-wincon std-lock failed (%d)" % r.returncode)
+        data = r.stdout if stream == "stdout" else r.stderr
+        cases = data.split(b"\n@@SEP@@\n")[:-1]
+        if len(cases) != len(STD_LOCK_CASES):
+            raise vlib.ToolError("std-lock %s: %d outputs for %d cases" % (stream, len(cases), len(STD_LOCK_CASES)))
+        evs = []
+        for (a, b), out in zip(STD_LOCK_CASES, cases):
+            parts = out.split(b"\n@@CUT@@\n")[:-1]
+            if len(parts) != 2:
+                parts = (parts + [b"", b""])[:2]
+                crashed = True
+            else:
+                crashed = False
+            for k, (buf, part) in enumerate(zip((a, b), parts)):
+                calls = parse_frames(part)
+                evs.append({"op": "write_all", "new": 1 if k == 0 else 0, "buf": list(buf),
+                            "console": calls if calls is not None else [[16, 16, list(part), "ok", len(part)]],
+                            "ret": ["panic", 0] if crashed else ["ok", len(buf)], "lock_before": k == 1, "stream": stream})
+        p = os.path.join(wd, "std-%s.ndjson" % stream)
+        rest = evs
+        base = 0
+        bad = 0
+        while rest and bad < 6:
+            vlib.write_lines(p, rest)
+            ok, rej, res = vlib.tlc_trace(p, "Trace_WinconStream", "c18-std", consts=flags)
+            chk.add_tlc(res)
+            if ok:
+                break
+            bad += 1
+            at = rej["reject_at"]
+            e = rest[at - 1]
+            chk.violation("WinconStream<%s>%s: write_all(%r) reached the stream as %s - rejected by Trace_WinconStream"
+                          % (stream, " after lock()" if e["lock_before"] else "", bytes(e["buf"]), json.dumps(e["console"])[:300]),
+                          {"kind": "console-trace", "events": [x for x in rest[max(0, at - 2):at]], "flags": flags})
+            # continue behind the case that failed
+            nxt = at
+            while nxt < len(rest) and rest[nxt]["new"] != 1:
+                nxt += 1
+            rest = rest[nxt:]
+        n += len(evs)
+    chk.evaluations += n
+    chk.part("B_real_process_streams_with_lock", cases=len(STD_LOCK_CASES), streams=2, calls=n)
 
 
 def replay(obj):
